@@ -198,10 +198,14 @@ pub fn build_im2col<'a, T: Copy>(
     }
     let max_y_offset = (g.h as i32 - 1) * sh;
     let max_x_offset = (g.w as i32 - 1) * sw;
+    // Rows added to reach the kernel's row step must be masked for every column, including
+    // columns whose patch starts in the (negative) padding region: use offsets far outside the
+    // image.  (src/ops/conv/im2col.rs uses max + 1, which is not masked for such patches; that
+    // is observed at the operator level, see Trace_QOps.)
     for _ in n_rows..n_rows_padded {
         chan.push(0);
-        rx.push(max_x_offset + 1);
-        ry.push(max_y_offset + 1);
+        rx.push(1 << 28);
+        ry.push(1 << 28);
     }
     let (oh, ow) = (g.oh(), g.ow());
     let n_cols = oh * ow;
